@@ -16,6 +16,7 @@ LEVEL_NOTE = ("Not decided: everything about computed *values* (that each evalua
               "semantic equivalence with a prose specification over all programs.  The check shows the control skeleton and the error "
               "discipline only; it would not notice e.g. `&=` replaced by `|=` in a value computation outside the listed features.")
 LEVEL_TEXT += (' Also: (C04.S) a strict scoped definition/assignment writes the variable map of the evaluated scope node itself; (E3.r) `$n` reads current_regex_captures[n] and a missing entry is UndefinedRegexCapture in both modes; (E5.var) VariableMap::add refuses a second definition and VariableMap::set writes mutable bindings only.  New helper functions are inlined into their callers before the rules run, and internal iteration (try_for_each/for_each with a local closure) is desugared to the explicit loop, so a refactoring does not change the verdict.')
+LEVEL_TEXT += (" (E5.mut) `var` is the only mutable definition, in checker, strict and lazy alike; (E3.ctx) nested blocks run in the enclosing context except for their own locals / error context (and a scan arm's captures); (E5.keep) the interpreters drop, merge or reorder elements of their collections only at the listed sites; results returned by closures are consumed only by error-keeping adaptors.")
 
 
 def run(prog, rep):
